@@ -15,20 +15,23 @@ def view(s, mode):
 def balanced(s):
     rest = PAT.sub("", s)
     return not re.search(r"\{--|--\}|\{\+\+|\+\+\}|\{==|==\}|\{>>|<<\}", rest)
-stats=collections.Counter(); shown=0; n=0
-L=int(sys.argv[1]); r=random.Random(1)
-texts=["".join(s) for k in range(1,L+1) for s in itertools.product(TOK, repeat=k)]
-targets=["foo","bar","foo bar","__","_","**","**foo**","[___]","[_]",'"foo"'," ","bar\nfoo"]
-for t in texts:
-    for _ in range(6):
-        k=r.choice([1,2,2])
-        es=[DocumentEdit(target_text=r.choice(targets), new_text=r.choice(["X","","foo baz","**Y**"]), comment=r.choice([None,"c"])) for _ in range(k)]
-        for hl in (False,True):
-            out=apply_edits_to_markdown(t, es, include_index=r.random()<0.5, highlight_only=hl); n+=1
-            p=[]
-            if view(out,"reject")!=t: p.append("REJECT_NOT_LOSSLESS")
-            if not balanced(out): p.append("UNBALANCED")
-            if hl and ("{--" in out or "{++" in out): p.append("HL_HAS_SUGGESTION")
-            for q in p: stats[q]+=1
-            if p and shown<8: shown+=1; print(repr(t),[(e.target_text,e.new_text) for e in es],hl,p,repr(out))
-print(n, dict(stats))
+def main():
+    stats=collections.Counter(); shown=0; n=0
+    L=int(sys.argv[1]); r=random.Random(1)
+    texts=["".join(s) for k in range(1,L+1) for s in itertools.product(TOK, repeat=k)]
+    targets=["foo","bar","foo bar","__","_","**","**foo**","[___]","[_]",'"foo"'," ","bar\nfoo"]
+    for t in texts:
+        for _ in range(6):
+            k=r.choice([1,2,2])
+            es=[DocumentEdit(target_text=r.choice(targets), new_text=r.choice(["X","","foo baz","**Y**"]), comment=r.choice([None,"c"])) for _ in range(k)]
+            for hl in (False,True):
+                out=apply_edits_to_markdown(t, es, include_index=r.random()<0.5, highlight_only=hl); n+=1
+                p=[]
+                if view(out,"reject")!=t: p.append("REJECT_NOT_LOSSLESS")
+                if not balanced(out): p.append("UNBALANCED")
+                if hl and ("{--" in out or "{++" in out): p.append("HL_HAS_SUGGESTION")
+                for q in p: stats[q]+=1
+                if p and shown<8: shown+=1; print(repr(t),[(e.target_text,e.new_text) for e in es],hl,p,repr(out))
+    print(n, dict(stats))
+    
+if __name__=='__main__': main()
